@@ -363,6 +363,124 @@ theorem code_de_run_coords (sel : List Nat) (n : Nat) (hs : sel ≠ []) (hsel : 
   | ifT _ _ _ _ hl ht => exact ⟨(hp 1 i ht).2, fun _ => (hp 1 i ht).1⟩
   | ifE _ _ _ _ hl he => exact ⟨hk _ i he, fun h1 => absurd h1 hl⟩
 
+/-- the signature-repulsion loop (`while the child equals a parent: mutate`) keeps every gene in range, the age and
+    the length; when its mutations changed nothing in total the individual is unchanged -/
+theorem mutation_loop_inv (ss : List Slot) (hd : Declared ss) (x y : Ga) (n : Nat) (h : MutStar ss x n y)
+    (hx : InRange ss x.genome) :
+    InRange ss y.genome ∧ y.age = x.age ∧ (n = 0 → y = x) := by
+  induction h with
+  | refl => exact ⟨hx, rfl, fun _ => rfl⟩
+  | step y' n' flip ch u _ ih =>
+    obtain ⟨h1, h2, h3⟩ := ih
+    refine ⟨ga_mutation_in_range ss hd flip ch u y' h1, by simp [gaMutate, h2], ?_⟩
+    intro h0
+    have hn : n' = 0 := by omega
+    have hc : (gaMutate ss flip ch u y').2 = 0 := by omega
+    have hy := h3 hn
+    have hg : (gaMutate ss flip ch u y').1.genome = y'.genome := by
+      have := countDiff_zero y'.genome (gaMutate ss flip ch u y').1.genome (by simp [gaMutate, mutGenome])
+        (by simpa [gaMutate] using hc)
+      exact this.symm
+    rw [← hy]
+    cases y' with
+    | mk g a => simp only [gaMutate] at hg ⊢; simp [hg]
+
+/-- the second parent `recombination::base::run` can use: `parent[1]`, or any individual when only one was selected -/
+def secondParents (pop : List Ga) : List Nat → List Ga
+  | _ :: j :: _ => (pop[j]?).toList
+  | _ => pop
+
+/-- **ga_run_sound**: whatever `recombination::base<i_ga>::run` returns along the EXTRACTED call site – crossover of
+    `pop[parent[0]]` with the second parent (+ repulsion mutations, `brood_recombination` candidates) or a mutated
+    copy of one parent – satisfies the relation the driver decides on observed calls: genes in range; after a
+    crossover the older parent's age and, when no mutation changed anything, the two-point segment shape; after a
+    copy the copied parent's age and exactly `mutations` changed genes. -/
+theorem ga_run_sound (ss : List Slot) (hd : Declared ss) (hn : 2 ≤ ss.length) (env : RunEnv) (pop : List Ga)
+    (sel : List Nat) (off : Ga) (dc dm : Nat) (hpop : ∀ p ∈ pop, InRange ss p.genome)
+    (hsel : ∀ i ∈ sel, i < pop.length) (h : Gen.gaRun.Run ss env pop sel off dc dm) :
+    ∃ i1 p1, sel[0]? = some i1 ∧ pop[i1]? = some p1 ∧
+      GsStep ss (max 1 env.brood) p1 (secondParents pop sel) off dc dm := by
+  have hp0 : ∀ i, Coord.Denotes sel pop.length (.parent 0) i → sel[0]? = some i := by
+    intro i h; cases h with | parent _ _ h => exact h
+  have hp1 : ∀ i, Coord.Denotes sel pop.length (.parent 1) i → sel[1]? = some i := by
+    intro i h; cases h with | parent _ _ h => exact h
+  -- the second parent is one of `secondParents`
+  have hsec : ∀ i p, Coord.Denotes sel pop.length (.ifParents 1 (.parent 1) (.pickup (.parent 0))) i →
+      pop[i]? = some p → p ∈ secondParents pop sel := by
+    intro i p h hp
+    cases h with
+    | ifT _ _ _ _ hl ht =>
+      have := hp1 i ht
+      match sel, this, hl with
+      | _ :: j :: _, this, _ =>
+        simp only [List.getElem?_cons_succ, List.getElem?_cons_zero, Option.some.injEq] at this
+        subst this
+        simp [secondParents, hp]
+    | ifE _ _ _ _ hl he =>
+      match sel, hl with
+      | [], _ => simp [secondParents]; exact List.mem_of_getElem? hp
+      | [_], _ => simp [secondParents]; exact List.mem_of_getElem? hp
+      | _ :: _ :: _, hl => simp at hl
+  cases h with
+  | cross i1 i2 p1 p2 cs off h1 h2 hp1' hp2' hb hlen hc hoff =>
+    simp only [Gen.gaRun] at h1 h2
+    refine ⟨i1, p1, hp0 i1 h1, hp1', ?_⟩
+    have hin1 := hpop p1 (List.mem_of_getElem? hp1')
+    have hin2 := hpop p2 (List.mem_of_getElem? hp2')
+    obtain ⟨u1, u2, hms, _⟩ := hc off hoff
+    have hx := ga_crossover_in_range ss u1 u2 p1 p2 hin1 hin2
+    obtain ⟨hr, ha, hz⟩ := mutation_loop_inv ss hd _ _ _ hms hx
+    refine ⟨hr, ?_⟩
+    have hne : cs.length ≠ 0 := by omega
+    rw [if_neg hne]
+    refine ⟨hlen, p2, hsec i2 p2 h2 hp2', ?_, ?_, ?_⟩
+    · rw [ha, age_max]
+    · rw [hr.1, hin2.1]
+    · intro hdm
+      have h0 : off.2 = 0 := sum_zero_mem _ hdm off.2 (List.mem_map.mpr ⟨off, hoff, rfl⟩)
+      rw [hz h0]
+      exact ga_crossover_step u1 u2 p1 p2 (by rw [hin1.1, hin2.1]) (by rw [hin2.1]; exact hn)
+  | copy i p flip ch u hi hp =>
+    simp only [Gen.gaRun] at hi
+    have hin := hpop p (List.mem_of_getElem? hp)
+    have hmem : ∃ i1 p1, sel[0]? = some i1 ∧ pop[i1]? = some p1 ∧ p ∈ p1 :: secondParents pop sel := by
+      cases hi with
+      | flipT _ _ _ ht => exact ⟨i, p, hp0 i ht, hp, by simp⟩
+      | flipE _ _ _ he =>
+        have hps := hsec i p he hp
+        -- the first selected parent exists
+        cases he with
+        | ifT _ _ _ _ hl _ =>
+          match sel, hl, hsel with
+          | i0 :: _ :: _, _, hsel =>
+            have hlt : i0 < pop.length := hsel i0 (by simp)
+            exact ⟨i0, pop[i0], by simp, List.getElem?_eq_getElem hlt, List.mem_cons_of_mem _ hps⟩
+        | ifE _ _ _ _ hl hk =>
+          cases hk with
+          | pickup _ j _ hj _ =>
+            have hj0 := hp0 j hj
+            have hlt : j < pop.length := hsel j (List.mem_of_getElem? hj0)
+            exact ⟨j, pop[j], hj0, List.getElem?_eq_getElem hlt, List.mem_cons_of_mem _ hps⟩
+    obtain ⟨i1, p1, hs0, hp1', hmem⟩ := hmem
+    refine ⟨i1, p1, hs0, hp1', ga_mutation_in_range ss hd flip ch u p hin, ?_⟩
+    rw [if_pos rfl]
+    exact ⟨p, hmem, rfl, by simp [gaMutate, mutGenome], rfl⟩
+
+/-- **de_run_sound**: whatever `recombination::de<i_de>::run` returns along the extracted call site is the trial
+    vector of the FIRST selected parent, with `parent[1]` (when the tournament returned two) as first donor,
+    population members as second donor and base, and ONE weight from the configured interval `env.de.weight`
+    (`inW`) – `de_trial_form` and `de_age` apply to it. -/
+theorem de_run_sound {F} (A : Arith F) (inW : F → Prop) (pop : List (De F)) (sel : List Nat) (off : De F)
+    (hs : sel ≠ []) (hsel : ∀ i ∈ sel, i < pop.length) (h : Gen.deRun.Run A inW pop sel off) :
+    ∃ (it ia ib ic : Nat) (t a b c : De F) (rf : F) (flip : Nat → Bool),
+      sel[0]? = some it ∧ (1 < sel.length → sel[1]? = some ia) ∧
+      pop[it]? = some t ∧ pop[ia]? = some a ∧ pop[ib]? = some b ∧ pop[ic]? = some c ∧ inW rf ∧
+      off = deCrossover A rf flip t a b c := by
+  have hc := code_de_run_coords sel pop.length hs hsel
+  cases h with
+  | mk it ia ib ic t a b c rf flip h1 h2 h3 h4 g1 g2 g3 g4 _ _ hw =>
+    exact ⟨it, ia, ib, ic, t, a, b, c, rf, flip, hc.1 it h1, (hc.2.1 ia h2).2, g1, g2, g3, g4, hw, rfl⟩
+
 /-! ## Part 5 — real genes under IEEE rounding -/
 
 /-- **de_in_box_ieee**: `std::uniform_real_distribution(lo, hi)` evaluated as `fl(fl(u·fl(hi − lo)) + lo)` for a
@@ -442,6 +560,12 @@ example : (Gen.gaXo.run Gen.age Gen.randIdx 7 5 ⟨[1, 2, 3, 4, 5], 70000⟩ ⟨
     = ⟨[10, 20, 30, 4, 50], 4294967295⟩ := by decide
 example : [AgeOp.load 65535, .inc, .older 70000, .inc].foldl (AgeOp.machine Gen.age) 0 = 70001 := by decide
 example : ([AgeOp.load 65535, .inc, .older 70000, .inc].take 4).foldl AgeOp.ideal 0 < 4294967296 := by decide
+example : Gen.gaRun.Run [[⟨0, 9⟩], [⟨0, 9⟩]] ⟨false, 1⟩ [⟨[1, 2], 3⟩, ⟨[4, 5], 70000⟩] [0, 1]
+    (gaCrossover 0 0 ⟨[1, 2], 3⟩ ⟨[4, 5], 70000⟩) 1 0 :=
+  .cross 0 1 ⟨[1, 2], 3⟩ ⟨[4, 5], 70000⟩ [(gaCrossover 0 0 ⟨[1, 2], 3⟩ ⟨[4, 5], 70000⟩, 0)]
+    (gaCrossover 0 0 ⟨[1, 2], 3⟩ ⟨[4, 5], 70000⟩, 0)
+    (.parent _ _ rfl) (.ifT _ _ _ _ (by decide) (.parent _ _ rfl)) rfl rfl rfl rfl
+    (by intro c hc; simp at hc; subst hc; exact ⟨0, 0, .refl _, fun _ => rfl⟩) (by simp)
 example : Gen.deRun.a.Denotes [3, 5] 8 5 := .ifT _ _ _ _ (by decide) (.parent _ _ rfl)
 example : Gen.deRun.a.Denotes [3] 8 6 := .ifE _ _ _ _ (by decide) (.pickup _ 3 _ (.parent _ _ rfl) (by decide))
 
